@@ -8,6 +8,7 @@
 #include <asmjit/support/arenalist.h>
 #include <asmjit/support/arenapool.h>
 #include <asmjit/support/arenabitset_p.h>
+#include <asmjit/support/arenastring.h>
 #include <asmjit/core/string.h>
 // file-static prime table: include the .cpp (this TU then replaces the archive member)
 #include <asmjit/support/arenahash.cpp>
@@ -17,7 +18,8 @@
 
 using namespace asmjit;
 
-struct Item12 { uint32_t a, b, c; bool operator==(const Item12& o) const { return a == o.a && b == o.b && c == o.c; } };
+struct Item12 { uint32_t a, b, c; bool operator==(const Item12& o) const { return a == o.a && b == o.b && c == o.c; }
+                bool operator!=(const Item12& o) const { return !(*this == o); } };
 static_assert(sizeof(Item12) == 12, "");
 
 struct HNode : public ArenaHashNode {
@@ -55,6 +57,8 @@ static std::map<uint64_t, ArenaList<LNode>> g_list;
 static std::map<uint64_t, ArenaBitSet> g_bits;
 static std::map<uint64_t, std::shared_ptr<String>> g_str;
 static ArenaPool<TNode> g_pool;
+struct AStrAny { int n; ArenaString<16> s16; ArenaString<40> s40; };
+static std::map<uint64_t, AStrAny> g_astr;
 
 static std::string U(uint64_t v) { return std::to_string(v); }
 
@@ -80,6 +84,7 @@ static void drop_containers() {
   for (auto& kv : g_bits) kv.second.reset();
   g_bits.clear();
   g_handles.clear();
+  g_astr.clear();
   g_pool.reset();
 }
 
@@ -132,6 +137,25 @@ static std::string arena_op(const std::vector<std::string>& w) {
     g_arena->free_reusable(it->second.first, it->second.second);
     g_handles.erase(it);
     return "ok loc=none";
+  }
+  if (w[1] == "dup") {
+    // A dup <hex> <null_terminate>
+    std::vector<uint8_t> bytes;
+    if (w.size() != 4 || !vh::hex_to_bytes(w[2], bytes)) return "bad-op";
+    bool nt = w[3] == "1";
+    uint8_t* m = static_cast<uint8_t*>(g_arena->dup(bytes.data(), bytes.size(), nt));
+    if (!m) return "null";
+    size_t alloc = Support::align_up(bytes.size() + size_t(nt), size_t(8));
+    bool zero = true;
+    for (size_t i = bytes.size(); i < alloc; i++) zero = zero && m[i] == 0;
+    return "ok loc=" + loc_of(m) + " bytes=" + U(alloc) + " s=" + vh::bytes_to_hex(m, bytes.size()) + " pad0=" + (zero ? "1" : "0");
+  }
+  if (w[1] == "pool") {
+    // A pool count | A pool reset   (the ArenaPool that serves the tree nodes)
+    if (w.size() != 3) return "bad-op";
+    if (w[2] == "reset") g_pool.reset();
+    else if (w[2] != "count") return "bad-op";
+    return "ok r=" + U(g_pool.pooled_item_count());
   }
   if (w[1] == "reset") {
     if (w.size() != 3) return "bad-op";
@@ -195,6 +219,26 @@ template<typename T> static std::string vec_op(ArenaVector<T>& v, ArenaVector<T>
   else if (op == "index_of") { size_t i = v.index_of(mk<T>(a)); r = " r=" + (i == SIZE_MAX ? std::string("none") : U(i)); }
   else if (op == "last_index_of") { size_t i = v.last_index_of(mk<T>(a)); r = " r=" + (i == SIZE_MAX ? std::string("none") : U(i)); }
   else if (op == "contains") r = std::string(" r=") + (v.contains(mk<T>(a)) ? "1" : "0");
+  else if (op == "iter" || op == "riter") {
+    // Span iteration adaptors (iterate / iterate_reverse) and range-for over the vector
+    std::vector<uint32_t> out;
+    if (op == "iter") { for (T& x : v.iterate()) out.push_back(val(x)); }
+    else { for (T& x : v.iterate_reverse()) out.push_back(val(x)); }
+    r = " r:" + list_or_hash(out.size(), [&](size_t i) { return U(out[i]); });
+  }
+  else if (op == "first_last") {
+    if (v.is_empty()) return "precond" + vec_state(v);
+    Span<T> sp = v.as_span();
+    r = " r=" + U(val(sp.first())) + "," + U(val(sp.last()));
+  }
+  else if (op == "span_eq") {
+    if (!other) return "bad-op";
+    Span<T> x = v.as_span(), y = other->as_span();
+    bool e1 = x.equals(y);
+    x.swap(y);                      // Span::swap exchanges the two views, not the contents
+    bool e2 = x.size() == other->size() && y.size() == v.size() && x.data() == other->data();
+    r = std::string(" r=") + (e1 ? "1" : "0") + (e2 ? "" : " spanswap=broken");
+  }
   else if (op == "info") {}
   else return "bad-op";
   return std::string(err_name(e)) + r + vec_state(v);
@@ -325,6 +369,11 @@ static std::string step(const std::string& line) {
     if (c == "T") { if (g_tree.count(id)) return "bad-op"; g_tree[id]; return "ok"; }
     if (c == "L") { if (g_list.count(id)) return "bad-op"; g_list[id]; return "ok"; }
     if (c == "B") { if (g_bits.count(id)) return "bad-op"; g_bits[id]; return "ok"; }
+    if (c == "Z") {
+      if (w.size() != 4 || !vh::parse_u64(w[3], a) || (a != 16 && a != 40) || g_astr.count(id)) return "bad-op";
+      g_astr[id].n = int(a);
+      return "ok";
+    }
     return "bad-op";
   }
   if (w.size() < 3 || !vh::parse_u64(w[1], id)) return "bad-op";
@@ -338,7 +387,7 @@ static std::string step(const std::string& line) {
     auto it = g_vec.find(id);
     if (it == g_vec.end()) return "bad-op";
     VecAny* o = nullptr;
-    if (op == "concat" || op == "swap" || op == "move_from" || op == "move_ctor") {
+    if (op == "concat" || op == "swap" || op == "move_from" || op == "move_ctor" || op == "span_eq") {
       auto jt = g_vec.find(id2);
       if (jt == g_vec.end() || jt->second.item != it->second.item || id2 == id) return "bad-op";
       o = &jt->second;
@@ -491,6 +540,30 @@ static std::string step(const std::string& line) {
     else if (op == "info") {}
     else return "bad-op";
     return std::string(err_name(e)) + r + bits_state(bs);
+  }
+  if (c == "Z") {
+    auto it = g_astr.find(id);
+    if (it == g_astr.end()) return "bad-op";
+    std::vector<uint8_t> bytes;
+    auto state = [&](auto& z, size_t whole) {
+      size_t n = z.size();
+      const char* d = z.data();
+      return " n=" + U(n) + " emb=" + (z.is_embedded() ? "1" : "0") + " loc=" + (z.is_embedded() ? std::string("none") : loc_of(d)) +
+             " bytes=" + U(Support::align_up(n + 1, size_t(8))) + " nul=" + ((n == 0 && !z.is_embedded()) ? "?" : (d[n] == 0 ? "1" : "0")) +
+             " s=" + (n ? vh::bytes_to_hex(reinterpret_cast<const uint8_t*>(d), n) : std::string("-")) + " whole=" + U(whole);
+    };
+    if (op == "set") {
+      if (w.size() != 4 || !vh::hex_to_bytes(w[3], bytes)) return "bad-op";
+      bytes.push_back(0);
+      Error e = it->second.n == 16 ? it->second.s16.set_data(*g_arena, (const char*)bytes.data(), bytes.size() - 1)
+                                   : it->second.s40.set_data(*g_arena, (const char*)bytes.data(), bytes.size() - 1);
+      return std::string(err_name(e)) + (it->second.n == 16 ? state(it->second.s16, sizeof(it->second.s16)) : state(it->second.s40, sizeof(it->second.s40)));
+    }
+    if (op == "reset") {
+      if (it->second.n == 16) it->second.s16.reset(); else it->second.s40.reset();
+      return "ok" + (it->second.n == 16 ? state(it->second.s16, sizeof(it->second.s16)) : state(it->second.s40, sizeof(it->second.s40)));
+    }
+    return "bad-op";
   }
   if (c == "S") {
     auto it = g_str.find(id);
